@@ -23,9 +23,9 @@ func mix(seed uint64, xs ...uint64) uint64 {
 
 type stats struct {
 	cfgs, fixes, ops, skipped, runs, labErrors int
-	skipReasons                              map[string]int
-	exhaustive, sampled                      int
-	domainHist                               map[int]int
+	skipReasons                                map[string]int
+	exhaustive, sampled                        int
+	domainHist                                 map[int]int
 }
 
 type genCtx struct {
